@@ -13,11 +13,15 @@ import traceback
 
 
 def scrub(text: str, root: str) -> str:
+    """Rewrite the scratch root - and its ancestors, which a ``../`` link can legitimately reach -
+    so that no observation depends on where the run's scratch directory happens to live."""
     if root:
-        text = text.replace(root, "<ROOT>")
-        rp = os.path.realpath(root)
-        if rp != root:
-            text = text.replace(rp, "<ROOT>")
+        for r in {root, os.path.realpath(root)}:
+            text = text.replace(r, "<ROOT>")
+            up, rel = os.path.dirname(r), "<ROOT>/.."
+            while up and up != "/":
+                text = text.replace(up + "/", rel + "/").replace(up, rel)
+                up, rel = os.path.dirname(up), rel + "/.."
     return text
 
 
